@@ -108,13 +108,13 @@ inductive UpOut where
   | fail
   /-- (driver only) the query does not occur in the replayed trace -/
   | missing
-  deriving Repr, Inhabited
+  deriving Repr, Inhabited, DecidableEq
 
 structure Resp where
   /-- index of the exchange in the trace (keys the oracle tables) -/
   qid : Nat
   out : UpOut
-  deriving Repr, Inhabited
+  deriving Repr, Inhabited, DecidableEq
 
 /-- `verify_rrset_with_dnskey` for a Secure key: `Ok((Secure, _))`, `Ok((Bogus, None))` (empty RRset), `Err(_)` -/
 inductive SigRes where
@@ -145,7 +145,7 @@ inductive Res where
   | errDepth
   | errNsec (p : Proof)
   | abort (why : String)
-  deriving Repr, Inhabited
+  deriving Repr, Inhabited, DecidableEq
 
 /-! ## RRset grouping (`RrsetMap::new`) -/
 
@@ -457,17 +457,29 @@ def summaryGo : List Rec → Option Bool → Summary
 
 def summary (rs : List Rec) : Summary := summaryGo rs none
 
+/-- the records the summary is taken over: the answers, or (negative answer) the authority records other
+than the SOA -/
+def summarised (m : Msg) : List Rec := if !m.an.isEmpty then m.an else m.ns.filter (·.rtype != tSOA)
+
 /-- response code and AD bit of the forwarded response for a client with DO set and the given CD bit;
 `none` for the rcode means "the upstream's rcode is passed through" (Insecure NSEC error) -/
 def serverView (cd : Bool) : Res → Option Nat × Bool
   | .ok m =>
-    let s := if !m.an.isEmpty then summary m.an else summary (m.ns.filter (·.rtype != tSOA))
-    match s with
+    match summary (summarised m) with
     | .secure => (some m.rcode, true)
     | .bogus => if cd then (some m.rcode, false) else (some 2, false)
     | .insecure => (some m.rcode, false)
   | .errNsec .insecure => (none, false)
   | _ => (some 2, false)
+
+/-! ## an upstream given by a finite trace (what the driver replays) -/
+
+def traceFind : List (Query × UpOut) → Nat → Query → Resp
+  | [], _, _ => ⟨0, .missing⟩
+  | (q', o) :: rest, i, q => if q' == q then ⟨i, o⟩ else traceFind rest (i + 1) q
+
+/-- the upstream that answers the queries of `trace` (first occurrence) and nothing else -/
+def traceUp (trace : List (Query × UpOut)) (q : Query) : Resp := traceFind trace 0 q
 
 /-! ## known-finding classes (decidable predicates on the upstream trace) -/
 
